@@ -41,7 +41,6 @@ Proof. cbv zeta. unfold Rodrigues. cbv zeta. cbv [e List.nth]. list_eq; ring. Qe
 Ltac unit_axis ax ay az Hpos :=
   let n := fresh "n" in let Hn := fresh "Hn" in let Hn0 := fresh "Hn0" in
   let Hu := fresh "Hu" in
-  fold (nrm3 ax ay az);
   assert (Hn0 : 0 < sqrt (ax * ax + ay * ay + az * az)) by (apply sqrt_lt_R0; exact Hpos);
   assert (Hn : sqrt (ax * ax + ay * ay + az * az) * sqrt (ax * ax + ay * ay + az * az) = ax * ax + ay * ay + az * az)
     by (apply sqrt_sqrt; lra);
@@ -80,7 +79,7 @@ Proof.
   set (s := sin (th / 2)) in *. set (c := cos (th / 2)) in *. orient_unit.
   sqrt_is_1. gate_01. unfold Rdiv; rewrite ?Rinv_1, ?Rmult_1_r.
   sqrt_is s. rewrite A by lra.
-  destruct (Req_EM_T 0 (2 * (th * / 2))) as [E|_]; [exfalso; lra|].
+  match goal with |- (if Req_EM_T 0 ?e then _ else _) = _ => destruct (Req_EM_T 0 e) as [E|_]; [exfalso; lra|] end.
   val_eq; field; lra.
 Qed.
 
@@ -96,7 +95,7 @@ Proof.
   set (s := sin (th / 2)) in *. set (c := cos (th / 2)) in *. orient_unit.
   sqrt_is_1.
   sqrt_is s. rewrite A by lra.
-  destruct (Req_EM_T 0 (2 * (th * / 2))) as [E|_]; [exfalso; lra|].
+  match goal with |- (if Req_EM_T 0 ?e then _ else _) = _ => destruct (Req_EM_T 0 e) as [E|_]; [exfalso; lra|] end.
   val_eq; field; lra.
 Qed.
 
@@ -109,27 +108,27 @@ Proof.
   unfold Rdiv; rewrite ?Rinv_1, ?Rmult_1_r.
   assert (Hn0 : 0 < sqrt (x * x + y * y + z * z)) by (apply sqrt_lt_R0; exact Hv).
   assert (Hn : sqrt (x * x + y * y + z * z) * sqrt (x * x + y * y + z * z) = x * x + y * y + z * z) by (apply sqrt_sqrt; lra).
-  set (n := sqrt (x * x + y * y + z * z)) in *.
-  (* (w, n) is a point of the unit circle with n > 0: its angle is t in (0, PI) *)
-  assert (Hwn : w * w + n * n = 1) by (rewrite Hn; rewrite <- Hq; ring).
-  pose proof (atan2_polar w n) as P. rewrite Hwn, sqrt_1, !Rmult_1_l in P. destruct P as [Pw Pn]; [lra|].
-  pose proof (atan2_range n w) as [Rg1 Rg2].
-  set (t := atan2 n w) in *.
+  set (nv := sqrt (x * x + y * y + z * z)) in *.
+  (* (w, nv) is a point of the unit circle with nv > 0: its angle is t in (0, PI) *)
+  assert (Hwn : w * w + nv * nv = 1) by (rewrite Hn; rewrite <- Hq; ring).
+  pose proof (atan2_polar w nv) as P. rewrite Hwn, sqrt_1, !Rmult_1_l in P. destruct P as [Pw Pn]; [lra|].
+  pose proof (atan2_range nv w) as [Rg1 Rg2].
+  set (t := atan2 nv w) in *.
   assert (T0 : t <> 0). { intros E. rewrite E, sin_0 in Pn. lra. }
   destruct (Req_EM_T 0 (2 * t)) as [E|_]; [exfalso; lra|].
   replace (2 * t * / 2) with t by field.
-  (* the axis v/n is a unit vector *)
-  assert (Hu : (x * / n) * (x * / n) + (y * / n) * (y * / n) + (z * / n) * (z * / n) = 1).
-  { replace (x * / n * (x * / n) + y * / n * (y * / n) + z * / n * (z * / n)) with ((x*x + y*y + z*z) / (n * n)) by (field; lra).
+  (* the axis v/nv is a unit vector *)
+  assert (Hu : (x * / nv) * (x * / nv) + (y * / nv) * (y * / nv) + (z * / nv) * (z * / nv) = 1).
+  { replace (x * / nv * (x * / nv) + y * / nv * (y * / nv) + z * / nv * (z * / nv)) with ((x*x + y*y + z*z) / (nv * nv)) by (field; lra).
     rewrite <- Hn. field. lra. }
   match goal with |- context [sqrt ?e] => replace e with 1 by (rewrite <- Hu; ring) end.
   rewrite sqrt_1. rewrite ?Rinv_1, ?Rmult_1_r.
   pose proof (sc1' t) as Hs.
-  assert (E1 : cos t * cos t + sin t * (x * / n) * (sin t * (x * / n)) + sin t * (y * / n) * (sin t * (y * / n))
-               + sin t * (z * / n) * (sin t * (z * / n)) = 1).
-  { replace (cos t * cos t + sin t * (x * / n) * (sin t * (x * / n)) + sin t * (y * / n) * (sin t * (y * / n))
-             + sin t * (z * / n) * (sin t * (z * / n)))
-      with (cos t * cos t + sin t * sin t * ((x * / n) * (x * / n) + (y * / n) * (y * / n) + (z * / n) * (z * / n))) by ring.
+  assert (E1 : cos t * cos t + sin t * (x * / nv) * (sin t * (x * / nv)) + sin t * (y * / nv) * (sin t * (y * / nv))
+               + sin t * (z * / nv) * (sin t * (z * / nv)) = 1).
+  { replace (cos t * cos t + sin t * (x * / nv) * (sin t * (x * / nv)) + sin t * (y * / nv) * (sin t * (y * / nv))
+             + sin t * (z * / nv) * (sin t * (z * / nv)))
+      with (cos t * cos t + sin t * sin t * ((x * / nv) * (x * / nv) + (y * / nv) * (y * / nv) + (z * / nv) * (z * / nv))) by ring.
     rewrite Hu. lra. }
   rewrite E1, sqrt_1. rewrite ?Rinv_1, ?Rmult_1_r.
   rewrite <- Pw, <- Pn. val_eq; try reflexivity; field; lra.
